@@ -586,10 +586,10 @@ theorem N5''_eq : (F5.delLeaves [T.leaf 2]).nodes =
      ((1, 0), .node (.leaf 0) (.leaf 1), false), ((0, 0), .leaf 0, true), ((0, 1), .leaf 1, true),
      ((1, 1), .leaf 3, true), ((0, 4), .leaf 4, true)] := by decide +kernel
 
-theorem L5 : Laws F5.nodes (FRoot F5) := laws_forest crT F5 (by decide) F5_hyg
+theorem L5 : Laws F5.nodes (FRoot F5) := laws_forest crT.toNZ F5 (by decide) F5_hyg
 
 theorem L5'' : Laws (F5.delLeaves [T.leaf 2]).nodes (FRoot F5) := by
-  have := laws_forest crT (F5.delLeaves [T.leaf 2]) (by rw [Spec.numLeaves_delLeaves]; decide)
+  have := laws_forest crT.toNZ (F5.delLeaves [T.leaf 2]) (by rw [Spec.numLeaves_delLeaves]; decide)
     (hyg_delLeaves F5_hyg _)
   rwa [froot_del] at this
 
@@ -693,7 +693,7 @@ theorem ex_hnr : ¬ FRoot F5 (0, 2) := by
 
 /-- the deletion relation, from `PForestDel.del_nonroot` -/
 theorem exDel : Del F5.nodes (F5.delLeaves [T.leaf 2]).nodes (FRoot F5) (0, 2) := by
-  have hdel := del_nonroot crT F5 (by decide) F5_hyg (d := (0, 2)) (h := T.leaf 2) (b := true)
+  have hdel := del_nonroot crT.toNZ F5 (by decide) F5_hyg (d := (0, 2)) (h := T.leaf 2) (b := true)
     ex_hd (by decide) [T.leaf 2] R2_spec
   exact ⟨L5, L5'', ⟨_, _, ex_hd⟩, ex_hnr, hdel.1, hdel.2.1, hdel.2.2.1, hdel.2.2.2⟩
 
